@@ -74,7 +74,7 @@ from types import TracebackType
 from typing import BinaryIO
 
 from dulwich.object_format import SHA1
-from dulwich.objects import ObjectID
+from dulwich.objects import ZERO_SHA, ObjectID
 from dulwich.refs import (
     SYMREF,
     Ref,
@@ -1177,10 +1177,10 @@ class ReftableRefsContainer(RefsContainer):
         try:
             current = self.read_loose_ref(name)
         except KeyError:
-            current = None
+            current = ZERO_SHA
 
-        old_ref_bytes = bytes(old_ref) if old_ref else None
-        if current != old_ref_bytes:
+        # None means unconditionally, ZERO_SHA that the ref must not exist
+        if old_ref is not None and current != bytes(old_ref):
             return False
 
         # Update ref
@@ -1220,10 +1220,10 @@ class ReftableRefsContainer(RefsContainer):
         try:
             current = self.read_loose_ref(name)
         except KeyError:
-            current = None
+            current = ZERO_SHA
 
-        old_ref_bytes = bytes(old_ref) if old_ref else None
-        if current != old_ref_bytes:
+        # None means unconditionally
+        if old_ref is not None and current != bytes(old_ref):
             return False
 
         self._write_ref_update(bytes(name), REF_VALUE_DELETE, b"")
